@@ -85,16 +85,34 @@ class SimFS:
                 return data[:a] + b"\xff\xfe" + data[a + 2:]
         return data
 
-    def open(self, path: str, mode: str = "r", encoding=None, errors=None):
+    @staticmethod
+    def _fd_with(data: bytes) -> int:
+        """An anonymous in-memory file holding `data` (a real descriptor: fileno(), mmap, os.read all work)."""
+        fd = os.memfd_create("simfs")
+        view = memoryview(data)
+        while view:
+            n = os.write(fd, view)
+            view = view[n:]
+        os.lseek(fd, 0, os.SEEK_SET)
+        return fd
+
+    def open_fd(self, path: str) -> int:
+        return self._fd_with(self.read(path))
+
+    def open(self, path: str, mode: str = "r", encoding=None, errors=None, newline=None, buffering=-1):
         data = self.read(path)
         if "w" in mode or "a" in mode or "+" in mode or "x" in mode:
             raise PermissionError(errno.EACCES, "simulated storage is read-only", path)
+        try:
+            raw = _real_open(self._fd_with(data), "rb", closefd=True)
+        except (AttributeError, OSError):  # no memfd_create on this platform: plain in-memory streams
+            raw = io.BytesIO(data)
         if "b" in mode:
-            return io.BytesIO(data)
+            return raw
         if encoding is None:
             self.default_encoding_opens += 1
             encoding = self.locale
-        return io.StringIO(data.decode(encoding, errors or "strict"))
+        return io.TextIOWrapper(raw, encoding=encoding, errors=errors, newline=newline)
 
 
 FS: SimFS | None = None
@@ -131,7 +149,7 @@ class SimPath(pathlib.PosixPath):
         return FS.is_file(self._s())
 
     def open(self, mode="r", buffering=-1, encoding=None, errors=None, newline=None):
-        return FS.open(self._s(), mode, encoding, errors)
+        return FS.open(self._s(), mode, encoding, errors, newline)
 
     def read_text(self, encoding=None, errors=None):
         with self.open("r", encoding=encoding, errors=errors) as fp:
@@ -243,7 +261,7 @@ def install(fs: SimFS, patch_resources: bool = True) -> None:
     def sim_open(file, mode="r", buffering=-1, encoding=None, errors=None, newline=None, closefd=True, opener=None):
         s = _under(file)
         if s is not None:
-            return FS.open(s, mode, encoding, errors)
+            return FS.open(s, mode, encoding, errors, newline)
         return _real_open(file, mode, buffering, encoding, errors, newline, closefd, opener)
 
     def sim_listdir(path="."):
@@ -290,6 +308,17 @@ def install(fs: SimFS, patch_resources: bool = True) -> None:
             return (FS.is_dir(s) or FS.is_file(s)) and not (mode & os.W_OK)
         return real_access(path, mode, *a, **k)
 
+    real_os_open = os.open
+
+    def sim_os_open(path, flags, mode=0o777, *, dir_fd=None):
+        s = _under(path)
+        if s is not None:
+            if flags & (os.O_WRONLY | os.O_RDWR | os.O_CREAT | os.O_TRUNC | os.O_APPEND):
+                raise PermissionError(errno.EACCES, "simulated storage is read-only", s)
+            return FS.open_fd(s)
+        return real_os_open(path, flags, mode, dir_fd=dir_fd)
+
+    os.open = sim_os_open
     builtins.open = sim_open
     io.open = sim_open
     os.listdir = sim_listdir
